@@ -400,12 +400,17 @@ def _wrongkey(ctx, d, pgpy, key, subj, sig, sigbytes, refsubj, sm):
     res = 'error:load' if s2 is None else sigwork.pgpy_verify(opub, subj, s2)[0]
     judge(ctx, ref_verdict(raw, om, refsubj), res, 'wrong-verifier-same-algorithm', d, {'verifier': other_name})
     # (b) the wrong component of the right key (its subkey), issuer rewritten
-    subm = pool.mat('ed25519_1' if d['signer'] != 'ed25519_1' else 'ed25519_2')
-    raw = _rewrite_issuer(sigbytes, RK.keyid_of(subm))
-    s2 = load_sig(pgpy, raw)
-    ctx.count('wrong_verifier')
-    res = 'error:load' if s2 is None else sigwork.pgpy_verify(key, subj, s2)[0]
-    judge(ctx, 'invalid', res, 'wrong-component-of-right-key', d, {})
+    for comp in key.subkeys.values():
+        raw = _rewrite_issuer(sigbytes, bytes.fromhex(comp.fingerprint.keyid))
+        s2 = load_sig(pgpy, raw)
+        ctx.count('wrong_verifier')
+        res = 'error:load' if s2 is None else sigwork.pgpy_verify(key, subj, s2)[0]
+        judge(ctx, 'invalid', res, 'wrong-component-of-right-key', d, {'component_algorithm': comp.key_algorithm.name})
+        # ... also over subjects that were never signed
+        for other_subj in (b'never signed', None):
+            res = 'error:load' if s2 is None else sigwork.pgpy_verify(key, other_subj, s2)[0]
+            ctx.count('wrong_verifier')
+            judge(ctx, 'invalid', res, 'wrong-component-of-right-key-other-subject', d, {'component_algorithm': comp.key_algorithm.name})
     # (c) key material mutated (public integers +-1 / bit flips, creation time, algorithm id), issuer rewritten to the mutated key's id
     blob = bytes(key)
     pkts = wire.split(blob)
